@@ -496,9 +496,11 @@ impl Xot {
         };
         // now filter these by namespaces actually required
         let unresolved_namespaces = HashSet::from_iter(self.unresolved_namespaces(node));
+        // a prefix the node declares itself is not inherited
+        let own = self.namespaces(node);
         prefixes
             .into_iter()
-            .filter(|(_, ns)| unresolved_namespaces.contains(ns))
+            .filter(|(prefix, ns)| unresolved_namespaces.contains(ns) && !own.contains_key(*prefix))
             .collect::<Prefixes>()
     }
 
@@ -802,7 +804,9 @@ impl Xot {
     /// defined for them in the context of the node are reported.
     pub fn unresolved_namespaces(&self, node: Node) -> Vec<NamespaceId> {
         let mut namespaces = Vec::new();
-        let mut fullname_serializer = FullnameSerializer::new(self, vec![]);
+        // the xml prefix is always bound
+        let mut fullname_serializer =
+            FullnameSerializer::new(self, self.base_prefixes().into_iter().collect());
         for edge in self.traverse(node) {
             match edge {
                 NodeEdge::Start(node) => {
@@ -810,16 +814,19 @@ impl Xot {
                     if let Some(element) = element {
                         fullname_serializer.push(self.namespace_declarations(node));
                         let namespace_id = self.namespace_for_name(element.name());
-                        if !fullname_serializer.is_namespace_known(namespace_id) {
+                        // a name in no namespace needs no prefix
+                        if namespace_id != self.no_namespace()
+                            && !fullname_serializer.is_namespace_known(namespace_id)
+                        {
                             namespaces.push(namespace_id);
                         }
                         for name in self.attributes(node).keys() {
                             let namespace_id = self.namespace_for_name(name);
                             // an attribute name in a namespace needs a non-empty
                             // prefix: the default namespace does not resolve it
-                            if !fullname_serializer.is_namespace_known(namespace_id)
-                                || (namespace_id != self.no_namespace()
-                                    && fullname_serializer.attribute_prefix(name).is_err())
+                            if namespace_id != self.no_namespace()
+                                && (!fullname_serializer.is_namespace_known(namespace_id)
+                                    || fullname_serializer.attribute_prefix(name).is_err())
                             {
                                 namespaces.push(namespace_id);
                             }
